@@ -26,7 +26,11 @@ def akai_payload():
                 {"name": "NEXT", "n": 5000, "chain": [5, 7], "seq": 2},
                 {"name": "PAD-L", "n": 4100, "chain": [9, 8], "seq": 3},
                 {"name": "PAD-R", "n": 4100, "chain": [10, 11], "seq": 4},
-                {"name": "CONT", "n": 12000, "chain": [14, 15, 16], "seq": 8}]},
+                {"name": "CONT", "n": 12000, "chain": [14, 15, 16], "seq": 8},
+                # an L/R pair of three sectors each: the left half contiguous, the right half fragmented (what is true for
+                # one file's sector list at some index says nothing about another file's)
+                {"name": "WIDE-L", "n": 12000, "chain": [17, 18, 19], "seq": 9},
+                {"name": "WIDE-R", "n": 12000, "chain": [20, 22, 21], "seq": 10}]},
             {"name": "VOL2", "dir": [12], "files": [{"name": "OTHER", "n": 300, "chain": [13], "seq": 5}]}]},
         {"vols": [
             {"name": "VOLB", "dir": [4], "files": [
@@ -205,6 +209,13 @@ def configs(quick):
         out.append({"name": kind + ":aligned-blocks", "kind": kind, "parts": [
             P(AC, ("seek", S - 140 - 4096), ("read", 4096), ("read", 4096), ("read", 4096)),
             P(A1, ("seek", 2 * S - 140 - 2048), ("read", 2048), ("read", 2048))]})
+        WL, WR = ("A:", "VOL1", "WIDE-L"), ("A:", "VOL1", "WIDE-R")
+        out.append({"name": kind + ":contiguous+fragmented", "kind": kind, "parts": [
+            P(WL, ("seek", S - 140 - 2048), ("read", 4096), ("seek", 2 * S - 140 - 100), ("read", 4096)),
+            P(WR, ("seek", S - 140 - 2048), ("read", 4096), ("seek", 2 * S - 140 - 100), ("read", 4096))]})
+        out.append({"name": kind + ":wide-stereo+stream", "kind": kind, "parts": [
+            {"path": ["A:", "VOL1", "WIDE-L"], "path2": ["A:", "VOL1", "WIDE-R"], "ops": [["next"]] * 6, "stepwise": True},
+            P(A1, ("read", 4096), ("read", S + 1))]})
         if not quick:
             for sizes in itertools.product([1, 2, 4096, S - 1, S + 1], repeat=2):
                 out.append({"name": f"{kind}:3x3:{sizes}", "kind": kind, "parts": [
@@ -247,40 +258,78 @@ def configs(quick):
     return out
 
 
+def pristine_isolated(cfg_names, quick):
+    """{config name: [sha1 of what each participant observes when its program runs ALONE in a NEW process]} -- state the
+    code under test keeps at class or module level cannot leak from one participant (or schedule) into a baseline"""
+    import hashlib
+    import os
+    import subprocess
+    import sys
+    from concurrent.futures import ThreadPoolExecutor
+    by = {c["name"]: c for c in configs(quick)}
+    jobs = [(n, i) for n in cfg_names for i in range(len(by[n]["parts"]))]
+
+    def one(job):
+        n, i = job
+        r = subprocess.run([sys.executable, "-B", "-m", "mcv.checks.c11", "baseline", "1" if quick else "0", n, str(i)], cwd=core.VERIF,
+                           capture_output=True, text=True, timeout=600, env=dict(os.environ, PYTHONHASHSEED="0"))
+        if r.returncode != 0:
+            return job, None
+        return job, r.stdout.strip().splitlines()[-1]
+    out = {n: [None] * len(by[n]["parts"]) for n in cfg_names}
+    with ThreadPoolExecutor(max_workers=min(16, os.cpu_count() or 4)) as ex:
+        for (n, i), dig in ex.map(one, jobs):
+            out[n][i] = dig
+    return out
+
+
+def _baseline_main(quick, name, idx):
+    import hashlib
+    cfg = next(c for c in configs(quick) if c["name"] == name)
+    parts = cfg["parts"]
+    got = run_schedule(cfg["kind"], parts, [idx] * len(parts[idx]["ops"]))[idx]
+    print(hashlib.sha1(got).hexdigest())
+
+
 class Check(CheckBase):
     id = "C11"
     level = "model_checking"
     title = "Sample streams sharing one image file handle do not disturb one another"
     rule = ("per configuration (AKAI raw and inside MODE1/2352: two files of one partition, one fragmented, one file of a "
-            "second partition, an L/R pair through the transcoder, lazy directory listings; Roland: forward + reverse-mode "
+            "second partition, an L/R pair through the transcoder, a three-sector pair with a contiguous left and a fragmented right half, lazy directory listings; Roland: forward + reverse-mode "
             "sample + listing of another performance, a shared sample with a leading-cluster offset, two samples living in one fragmented chain; CDDA: three tracks): ALL interleavings of the participants' call programs "
             "(block reads of 1, 2, 4096, sector-1, sector+1 bytes, sector-aligned reads of a contiguous file that end "
             "exactly on a sector boundary, read-to-end requests, absolute seeks, ls of unrealised directories, transcoder "
             "steps) on one fresh image object per schedule; thorough adds 3x3-step programs over all 25 block-size pairs. "
-            "Oracle: each participant's observations equal those of the same program run alone on a fresh image. states = "
+            "Oracle: each participant's observations equal those of the same program run alone on a fresh image IN A NEW PROCESS "
+            "(one pristine subprocess per participant, so that state kept at class / module level cannot leak into a baseline). states = "
             "schedules, transitions = steps. non-trivial = schedule with >=2 context switches")
     assumptions = ["calls are atomic (the library has no threads): interleaving granularity is one stream/ls/transcoder call"]
 
     def shards(self):
         out = []
-        for ci, cfg in enumerate(configs(self.quick)):
+        cfgs = configs(self.quick)
+        base = pristine_isolated([c["name"] for c in cfgs], self.quick)
+        for ci, cfg in enumerate(cfgs):
             counts = [len(p["ops"]) for p in cfg["parts"]]
             depth = min(3, sum(counts))
             prefixes = sorted({tuple(seq[:depth]) for seq in interleavings(counts)})
             for pre in prefixes:
-                out.append({"cfg": cfg, "prefix": list(pre)})
+                out.append({"cfg": cfg, "prefix": list(pre), "iso": base[cfg["name"]]})
         return out
 
     def run_shard(self, shard, rep: Report):
         if "replay_case" in shard:
             c = shard["replay_case"]
-            cfg = next((x for x in configs(False) if x["name"] == c["config"]), None)
+            cfg = next((x for x in configs(False) if x["name"] == c["config"]), None) or \
+                next((x for x in configs(True) if x["name"] == c["config"]), None)
             if cfg is None:
                 raise core.HarnessError("unknown configuration in replay")
-            return self._one(cfg, c["schedule"], rep, self._iso(cfg))
+            quick = any(x["name"] == c["config"] for x in configs(True))
+            return self._one(cfg, c["schedule"], rep, pristine_isolated([cfg["name"]], quick)[cfg["name"]])
         cfg = shard["cfg"]
-        iso = self._iso(cfg)
-        if iso is None:
+        iso = shard["iso"]
+        if iso is None or any(d is None for d in iso):
             rep.case({"config": cfg["name"], "schedule": None}, ok=False, klass="isolated-run-failed", nontrivial=True,
                      sig=cfg["kind"] + ":isolated-run-failed")
             return
@@ -291,10 +340,6 @@ class Check(CheckBase):
             counts2[f] -= 1
         for rest in interleavings(counts2):
             self._one(cfg, pre + rest, rep, iso)
-
-    def _iso(self, cfg):
-        st, iso = guarded(lambda: isolated(cfg["kind"], cfg["parts"]), 120.0)
-        return iso if st == "ok" else None
 
     def _one(self, cfg, seq, rep, iso):
         st, got = guarded(lambda: run_schedule(cfg["kind"], cfg["parts"], seq), 60.0)
@@ -307,11 +352,23 @@ class Check(CheckBase):
             rep.case(case, ok=False, klass="raised" if st == "exc" else "hang", nontrivial=sw >= 2,
                      sig=f"{cfg['kind']}:" + ("raised:" + exc_sig(got) if st == "exc" else "hang"), detail={"observed": repr(got)[:200]})
             return
+        import hashlib
         for i, (g, e) in enumerate(zip(got, iso)):
-            if g != e:
-                k = next((j for j in range(min(len(g), len(e))) if g[j] != e[j]), min(len(g), len(e)))
+            if hashlib.sha1(g).hexdigest() != e:
+                # where it differs: against the same program run alone in THIS process (may itself be affected; informative only)
+                st2, alone = guarded(lambda: run_schedule(cfg["kind"], cfg["parts"], [i] * len(cfg["parts"][i]["ops"]))[i], 60.0)
+                k = None
+                if st2 == "ok":
+                    k = next((j for j in range(min(len(g), len(alone))) if g[j] != alone[j]), min(len(g), len(alone)))
                 rep.case(case, ok=False, klass="disturbed", nontrivial=sw >= 2, sig=f"{cfg['kind']}:disturbed:participant{i}",
-                         detail={"participant": i, "path": cfg["parts"][i]["path"], "isolated_len": len(e), "observed_len": len(g),
-                                 "first_difference": k})
+                         detail={"participant": i, "path": cfg["parts"][i]["path"], "observed_len": len(g),
+                                 "first_difference_vs_alone_in_this_process": k,
+                                 "alone_in_this_process_equals_alone_in_new_process": (st2 == "ok" and hashlib.sha1(alone).hexdigest() == e)})
                 return
         rep.case(case, klass=f"undisturbed:{min(sw, 6)}switches", nontrivial=sw >= 2)
+
+
+if __name__ == "__main__":
+    import sys
+    if len(sys.argv) == 5 and sys.argv[1] == "baseline":
+        _baseline_main(sys.argv[2] == "1", sys.argv[3], int(sys.argv[4]))
